@@ -34,9 +34,8 @@ Fixpoint dot (idx strides : list Z) : Z :=
   | _, _ => 0
   end.
 
-(* torch's default (contiguous) strides of a shape: stride_k = prod_{j>k} max(shape_j, 1) is what torch
-   records; for index arithmetic only the value prod_{j>k} shape_j matters when no dimension is 0 and any
-   value does when one is, so the plain product is used. *)
+(* row-major (contiguous) strides of a shape: stride_k = prod_{j>k} shape_j.  (torch records max(shape_j, 1) in the
+   product; the two differ only when some dimension is 0, and then there is no index to multiply a stride with.) *)
 Fixpoint contiguous_strides (shape : list Z) : list Z :=
   match shape with
   | [] => []
